@@ -169,26 +169,32 @@ func (h *Headers) Serialize(frh *FrameHeader) {
 			frh.Flags().Add(FlagEndHeaders))
 	}
 
+	// Assembled in the frame header's payload, not in rawHeaders: what is
+	// added for the wire would otherwise still be in the block, as part of it,
+	// the next time the frame is written or its block looked at.
+	payload := frh.payload[:0]
+
 	if h.priority {
 		frh.SetFlags(
 			frh.Flags().Add(FlagPriority))
 
-		// prepend stream and weight to rawHeaders
-		h.rawHeaders = append(h.rawHeaders, 0, 0, 0, 0, 0)
-		copy(h.rawHeaders[5:], h.rawHeaders)
-		http2utils.Uint32ToBytes(h.rawHeaders[0:4], h.stream)
+		// stream dependency and weight come before the block
+		payload = append(payload, 0, 0, 0, 0, 0)
+		http2utils.Uint32ToBytes(payload[0:4], h.stream)
 		if h.exclusive {
-			h.rawHeaders[0] |= 0x80
+			payload[0] |= 0x80
 		}
 
-		h.rawHeaders[4] = h.weight
+		payload[4] = h.weight
 	}
+
+	payload = append(payload, h.rawHeaders...)
 
 	if h.hasPadding {
 		frh.SetFlags(
 			frh.Flags().Add(FlagPadded))
-		h.rawHeaders = http2utils.AddPadding(h.rawHeaders)
+		payload = http2utils.AddPadding(payload)
 	}
 
-	frh.payload = append(frh.payload[:0], h.rawHeaders...)
+	frh.payload = payload
 }
